@@ -164,8 +164,60 @@ func recTerm(r Rec) string {
 		zu(uint64(f32bits(r.Mean))), zu(uint64(f32bits(r.Delta))), zu(uint64(f32bits(r.Resid))), len(c), packWords(4, c))
 }
 
+// padBits: a matrix given with fewer than rows*cols entries is filled up with +0.0 (keeps big models small in the case file)
+func padBits(bits []uint64, n int) []uint64 {
+	if len(bits) >= n {
+		return bits[:n]
+	}
+	out := make([]uint64, n)
+	copy(out, bits)
+	return out
+}
+
 func matTerm(rows, cols int, bits []uint64) string {
+	bits = padBits(bits, rows*cols)
+	k := len(bits)
+	for k > 0 && bits[k-1] == 0 {
+		k--
+	}
+	if len(bits)-k > 4096 { // a long tail of +0.0: not spelled out
+		return fmt.Sprintf("(MXpad %d %d %d %s)", rows, cols, k, packWords(8, bits[:k]))
+	}
 	return fmt.Sprintf("(MX %d %d %s)", rows, cols, packWords(8, bits))
+}
+
+// rle renders a large body losslessly as raw chunks and runs of zero bytes.
+func rle(b []byte) string {
+	var parts []string
+	raw := func(x []byte) {
+		for len(x) > 0 {
+			n := len(x)
+			if n > 14000 {
+				n = 14000
+			}
+			parts = append(parts, fmt.Sprintf("PRaw %d %s", n, pack(x[:n])))
+			x = x[n:]
+		}
+	}
+	start := 0
+	for i := 0; i < len(b); {
+		if b[i] != 0 {
+			i++
+			continue
+		}
+		j := i
+		for j < len(b) && b[j] == 0 {
+			j++
+		}
+		if j-i >= 4096 {
+			raw(b[start:i])
+			parts = append(parts, fmt.Sprintf("PZero %d", j-i))
+			start = j
+		}
+		i = j
+	}
+	raw(b[start:])
+	return lib.List(parts)
 }
 
 // ---------------------------------------------------------------- header fields
@@ -237,6 +289,9 @@ func (f fileObs) term() string {
 		return "FAbsent"
 	case "bad":
 		return "FBad"
+	}
+	if len(f.body) > 100000 {
+		return fmt.Sprintf("(FFp %s %d %d %s)", f.Hdr, f.Size, f.HLen, rle(f.body))
 	}
 	return fmt.Sprintf("(FF %s %d %d %d %s)", f.Hdr, f.Size, f.HLen, len(f.body), pack(f.body))
 }
@@ -572,6 +627,7 @@ func guard(f func() error) (ret string) {
 func f32(bits64 uint64) float32 { return float32(math.Float64frombits(bits64)) }
 
 func denseFromBits(r, c int, bits []uint64) *mat.Dense {
+	bits = padBits(bits, r*c)
 	d := make([]float64, len(bits))
 	for i, b := range bits {
 		d[i] = math.Float64frombits(b)
